@@ -22,6 +22,9 @@ pub mod sparse_vector;
 pub mod support;
 pub mod wavelet_matrix;
 
+#[cfg(simple_sds_verif)]
+pub mod verif_hooks;
+
 #[cfg(any(test, feature = "binaries"))]
 #[doc(hidden)]
 pub mod internal;
